@@ -81,7 +81,11 @@ func RunC08DHT(st *simcore.Stream, tier, leg string, logOn bool, res *simcore.Re
 			guard("RemovePeer/GetPeer/HasPeer", func() { node.RemovePeer(id); node.GetPeer(id); node.HasPeer(id) })
 		case 5:
 			k := key()
-			guard(fmt.Sprintf("Put/Get/WouldAdd(key %d bytes)", len(k)), func() { node.Put(k, []byte("v"), time.Duration(st.Intn(100))*time.Second); node.Get(k); node.WouldAdd(k) })
+			guard(fmt.Sprintf("Put/Get/WouldAdd(key %d bytes)", len(k)), func() {
+				node.Put(k, []byte("v"), time.Duration(st.Intn(100))*time.Second)
+				node.Get(k)
+				node.WouldAdd(k)
+			})
 		case 6:
 			lim := simcore.Pick(st, -1, 0, 1, 100)
 			k := key()
